@@ -181,6 +181,6 @@ PROBES = {
 
 STREAMS = {
     "worlds": Stream("worlds", oracle=oracle, strategy=strategy, quick=480, thorough=0, shards_quick=16, shards_thorough=16),
-    "worlds_large": Stream("worlds_large", oracle=oracle, strategy=strategy_thorough, quick=0, thorough=5000, shards_quick=16, shards_thorough=16),
-    "chunk_rule": Stream("chunk_rule", oracle=oracle_chunks, strategy=strategy_chunks, quick=48, thorough=1000, shards_quick=8, shards_thorough=16),
+    "worlds_large": Stream("worlds_large", oracle=oracle, strategy=strategy_thorough, quick=0, thorough=2500, shards_quick=16, shards_thorough=16),
+    "chunk_rule": Stream("chunk_rule", oracle=oracle_chunks, strategy=strategy_chunks, quick=48, thorough=500, shards_quick=8, shards_thorough=16),
 }
